@@ -55,7 +55,9 @@ var c10PathResults = map[string]map[string]int{
 
 var c10LinkErr = map[string]bool{"Link": true, "Rename": true, "Symlink": true}
 
-func bpMethod(rc *RuleCtx, name string) *ssa.Function { return rc.C.method("basepathfs", "BasePathFS", name) }
+func bpMethod(rc *RuleCtx, name string) *ssa.Function {
+	return rc.C.method("basepathfs", "BasePathFS", name)
+}
 
 // isCallTo: v is the result (or result #idx) of a static call to target; returns the call.
 func isCallTo(v ssa.Value, target *ssa.Function) *ssa.Call {
